@@ -85,6 +85,7 @@ fn check_common(c: &ACfg, a: &PreA, out: Out, t: usize, woken_t: bool, s: &v::Sn
     let polled_up = gh.up_polls > 0;
     // C10: upstream is dropped exactly when it reported its end
     vassert!(present2 == (a.present && !gh.up_ended), "C10:upstream kept after its end, or discarded before it ended");
+    vassert!(present2 || !a.present || gh.up_ended, "C09:upstream discarded although it has not ended: its remaining items are never started (not work-conserving)");
     vassert!(a.present || gh.up_polls == 0, "C10:upstream polled although it is gone");
     // C09: never more than n unfinished futures
     vassert!(s.filled <= c.n, "C09:more than n futures in flight");
@@ -268,6 +269,7 @@ pub fn step_for_each(c: &ACfg) {
     fub::check_inv_post(&s, 0, fub::M_INV);
     let pulled = gh.up_pulled - pulled0;
     vassert!(present2 == (present && !gh.up_ended), "C10:upstream kept after its end, or discarded before it ended");
+    vassert!(present2 || !present || gh.up_ended, "C09:upstream discarded although it has not ended: its remaining items are never started (not work-conserving)");
     vassert!(present || gh.up_polls == 0, "C10:upstream polled although it is gone");
     vassert!(s.filled <= c.n || c.n == 0, "C09:more than n futures in flight");
     // every pulled item was turned into exactly one future which is held or finished
@@ -374,6 +376,7 @@ pub fn step_buffered_ordered(c: &ACfg, try_: bool) {
     vassert!(len2 + yielded == o.len + pulled, "C10:an upstream item was pulled twice, lost or invented");
     vassert!(len2 <= c.n, "C16:more than n items pulled and not yet yielded (no backpressure)");
     vassert!(present2 == (present && !gh.up_ended), "C10:upstream kept after its end, or discarded before it ended");
+    vassert!(present2 || !present || gh.up_ended, "C09:upstream discarded although it has not ended: its remaining items are never started (not work-conserving)");
     // C17, before and after (the pre-state hint was taken before the poll)
     {
         let r0 = (gh.up_remaining + pulled) + o.len;
